@@ -15,6 +15,56 @@ CHECKS = {
              "exhaustive only for the small constants in spec/MC_Reader_*.cfg; larger behaviours are covered by "
              "validated traces, not by proof.",
         technique="TLA+ design model + refinement (TLC), trace validation of recorded operation histories against ReaderAbs"),
+    "C11": dict(
+        category="model_checking",
+        text="TLC explores the design model of DeferredWriter (capacity 4, every fill/flush/direct-write path, every sink "
+             "answer: short write, Interrupted, Ok(0), error) exhaustively, checking loss-freeness, in-order duplicate-free "
+             "delivery, error parking/reporting and refinement of the abstract writer; random operation histories of the "
+             "real writer over a scheduled sink are validated record by record against the abstract specification, which "
+             "computes the canonical decimal text of every integer itself.",
+        design_ref="DESIGN.md §3.3, §5 C11",
+        note="Trusted: TLC, the harness' scheduled sink and its logging, extraction of hex digits by shifting. Histories use "
+             "capacities 4..64 through the cfg-gated constructor; the 16 KiB default capacity is not driven (TLC becomes "
+             "quadratic on 100 KiB sequences).",
+        technique="TLA+ design model + refinement (TLC), trace validation of recorded operation histories against WriterAbs"),
+    "C13": dict(
+        category="model_checking",
+        text="The reference semantics of the four decimal scanners is a TLA+ function of the input bytes with type bounds as "
+             "arbitrary-precision digit sequences (checked against native arithmetic by TLC). Every recorded call of the real "
+             "scanners - random reader histories on all 12 integer types and buffered amounts, boundary numerals, and kernel "
+             "vectors covering every run length x lane x all 256 terminator bytes - must return exactly the specified "
+             "value/overflow and offset, and may pull input only while needed.",
+        design_ref="DESIGN.md §3.4, §5 C13",
+        note="The SWAR kernel itself is bound to the specification through vectors only (64-bit arithmetic is outside TLC "
+             "integers); the 1.1e8 all-digit-strings sweep is replaced by all strings up to 3 (quick) / 5 (thorough) digits.",
+        technique="TLA+ reference function (TextScan) + trace validation of recorded scanner calls and systematic kernel vectors"),
+    "C14": dict(
+        category="model_checking",
+        text="IndexSafe (pos_in_buf + valid_len <= buf.len()) and LenLeCap are invariants of the reader/writer design models "
+             "that include the panicking calls as actions which must change nothing; histories of the real code with "
+             "advance past the buffer and an over-reporting source, each panic caught, must keep the exposed state equal "
+             "to the specification's (dev build: debug assertions and overflow checks on).",
+        design_ref="DESIGN.md §5 C14, §8",
+        note="Index level only: TLA+ sees lengths, indices and exposed content, not memory. The AddressSanitizer clause of the "
+             "quantifier is not covered.",
+        technique="TLA+ design models with panic actions (TLC) + trace validation of histories with caught panics"),
+    "C15": dict(
+        category="model_checking",
+        text="The combinator algebra is a finite TLA+ function; TLC checks the C15 laws on the whole domain (144 cases) and "
+             "the harness evaluates the real combinators on every case with invocation-recording closures; Trace_Parsed "
+             "requires results and invocations to equal the specification and the cases to cover the domain. Exhaustive.",
+        design_ref="DESIGN.md §3.5, §5 C15",
+        note="Payloads are two integers per case; closures are observed through a thread-local invocation log.",
+        technique="exhaustive TLC check of the laws + exhaustive trace validation of the real combinators against Parsed.tla"),
+    "C16": dict(
+        category="model_checking",
+        text="TextScan defines each helper's result and the last byte it depends on (Need); TLC checks exhaustively over "
+             "short strings that Need is sufficient and necessary. Recorded calls of the real helpers inside random reader "
+             "histories (short reads, arbitrary offsets and buffer states) must return the specified offset, leave the "
+             "cursor alone and pull input only while the Need byte is neither buffered nor known absent.",
+        design_ref="DESIGN.md §3.4, §5 C16",
+        note="Read economy is checked against the abstract reader (a helper behaves like request_byte_at_offset(Need)).",
+        technique="TLA+ reference functions with Need (TLC exhaustive over short strings) + trace validation of recorded calls"),
 }
 
 NOT_YET = {}
